@@ -3,7 +3,8 @@
 From ClapModel Require Import Base.Bytes Base.Machine Base.Utf8.
 From ClapModel Require Import Parse.Cmd Parse.Build Parse.Valid Parse.Matcher Parse.Errors Parse.Validator Parse.Parser.
 From ClapModel Require Import ParseProofs.Spelling ParseProofs.Dispatch ParseProofs.SpellingLine.
-From ClapModel Require Import ParseProofs.SpellingStep ParseProofs.SpellingDash ParseProofs.SpellingTree.
+From ClapModel Require Lex.LexProofs.
+From ClapModel Require Import ParseProofs.SpellingStep ParseProofs.SpellingDash ParseProofs.SpellingTree ParseProofs.SpellingNeg.
 From Coq Require Import ZArith List.
 From RecordUpdate Require Import RecordSet.
 Import RecordSetNotations.
@@ -763,3 +764,98 @@ Theorem C08_sub_name_respell : forall c t1 t2 n1 n2 rest ls st,
   lvl_equiv c (parse_loop c (t1 :: rest) ls st) (parse_loop c (t2 :: rest) ls st).
 Proof. exact sub_name_respell. Qed.
 Print Assumptions C08_sub_name_respell.
+
+(** ** detached vs attached values that look like negative numbers (ParseProofs/SpellingNeg.v) *)
+
+(** the parser model's [is_number] accepts exactly the number language of the lexer (C13: [number_lang]) *)
+Theorem C08_is_number_lang : forall s, is_number s = true <-> LexProofs.number_lang s.
+Proof. exact is_number_lang. Qed.
+Print Assumptions C08_is_number_lang.
+
+Theorem C08_negnum_classes_meaning : forall c,
+  (forall a v, negnum_value a v <->
+     a_negnum a = true /\ (exists r, to_short v = Some r /\ sf_is_negative_number r = true) /\
+     check_terminator a v = false) /\
+  (forall a v, takes_as_value c a v <->
+     forall rest pos vaf st,
+     parse_loop c (v :: rest) (mkL (PSOpt (a_id a)) pos vaf false) st =
+     (do a0 <- expect 290 (find_arg c (a_id a));
+      if check_terminator a0 v then parse_loop c rest (mkL PSValuesDone pos vaf false) st
+      else do y <- take_value c (a_id a) v st;
+           parse_loop c rest (mkL (if snd y then PSOpt (a_id a) else PSValuesDone) pos vaf false) (fst y))).
+Proof. exact (fun c => conj (fun a v => iff_refl _) (fun a v => iff_refl _)). Qed.
+Print Assumptions C08_negnum_classes_meaning.
+
+(** EVERY [-m] with [m] in the number language is a negative-number value of an option that allows them *)
+Theorem C08_number_is_negnum_value : forall a m,
+  a_negnum a = true -> utf8_valid m = true -> m <> [] -> hd 0 m <> 45 ->
+  LexProofs.number_lang m -> check_terminator a (45 :: m) = false -> negnum_value a (45 :: m).
+Proof. exact number_is_negnum_value. Qed.
+Print Assumptions C08_number_is_negnum_value.
+
+(** with the option waiting, the loop hands such a token to it (MaybeHyphenValue route), as it does a plain token *)
+Theorem C08_negnum_token_is_value : forall c a v,
+  is_set s_sub_precedence c = false -> find_arg c (a_id a) = Some a ->
+  (negnum_value a v \/ plain_value a v) -> takes_as_value c a v.
+Proof.
+  exact (fun c a v SP FA H => match H with
+                              | or_introl N => negnum_takes c a v SP FA N
+                              | or_intror P => plain_takes c a v SP P
+                              end).
+Qed.
+Print Assumptions C08_negnum_token_is_value.
+
+(** [--opt v] = [--opt=v] and [-o v] = [-ov] for ANY token the loop hands to the option *)
+Theorem C08_long_space_vs_eq_any_value : forall c l v a r tokA tokB rest ls st x0,
+  flag_site c ls tokA -> flag_site c ls tokB ->
+  to_long tokA = Some (l, true, Some v) -> to_long tokB = Some (l, true, None) ->
+  lookup_long c l = Some a -> single_opt c a r -> takes_as_value c a v -> check_terminator a v = false ->
+  fs_skip st = 0 ->
+  react c (Some ILong) SCmdLine a [v] None st = ROk x0 ->
+  res_rel c (parse_loop c (tokB :: v :: rest) ls st) (parse_loop c (tokA :: rest) ls st).
+Proof. exact long_space_vs_eq_vs. Qed.
+Print Assumptions C08_long_space_vs_eq_any_value.
+
+Theorem C08_short_space_vs_att_any_value : forall c ch a r b t rA rB tokA tokB rest ls st x0,
+  short_site c ls tokA -> short_site c ls tokB ->
+  to_short tokA = Some rA -> sf_next rA = Some (inl ch, b :: t) -> b <> 61 ->
+  to_short tokB = Some rB -> sf_next rB = Some (inl ch, []) ->
+  get_short c ch = Some a -> single_opt c a r -> takes_as_value c a (b :: t) -> check_terminator a (b :: t) = false ->
+  fs_skip st = 0 ->
+  react c (Some IShort) SCmdLine a [b :: t] None st = ROk x0 ->
+  res_rel c (parse_loop c (tokB :: (b :: t) :: rest) ls st) (parse_loop c (tokA :: rest) ls st).
+Proof. exact short_space_vs_att_vs. Qed.
+Print Assumptions C08_short_space_vs_att_any_value.
+
+(** whole lines: [p --opt -1. rest] = [p --opt=-1. rest], [p -o -1. rest] = [p -o-1. rest] *)
+Theorem C08_negnum_long_space_vs_eq_line : forall c0 bin l v a r tokA tokB rest x0,
+  is_set s_no_binary_name c0 = false ->
+  let c := build_self (top_cmd c0 bin) in
+  is_set s_ignore_errors c = false -> is_set s_sub_precedence c = false ->
+  flag_site c ls_top tokA -> flag_site c ls_top tokB ->
+  to_long tokA = Some (l, true, Some v) -> to_long tokB = Some (l, true, None) ->
+  lookup_long c l = Some a -> single_opt c a r -> negnum_value a v ->
+  react c (Some ILong) SCmdLine a [v] None ps_new = ROk x0 ->
+  parse_top c0 (bin :: tokB :: v :: rest) = parse_top c0 (bin :: tokA :: rest).
+Proof. exact long_space_vs_eq_negnum_top. Qed.
+Print Assumptions C08_negnum_long_space_vs_eq_line.
+
+Theorem C08_negnum_short_space_vs_att_line : forall c0 bin ch a r b t rA rB tokA tokB rest x0,
+  is_set s_no_binary_name c0 = false ->
+  let c := build_self (top_cmd c0 bin) in
+  is_set s_ignore_errors c = false -> is_set s_sub_precedence c = false ->
+  short_site c ls_top tokA -> short_site c ls_top tokB ->
+  to_short tokA = Some rA -> sf_next rA = Some (inl ch, b :: t) -> b <> 61 ->
+  to_short tokB = Some rB -> sf_next rB = Some (inl ch, []) ->
+  get_short c ch = Some a -> single_opt c a r -> negnum_value a (b :: t) ->
+  react c (Some IShort) SCmdLine a [b :: t] None ps_new = ROk x0 ->
+  parse_top c0 (bin :: tokB :: (b :: t) :: rest) = parse_top c0 (bin :: tokA :: rest).
+Proof. exact short_space_vs_att_negnum_top. Qed.
+Print Assumptions C08_negnum_short_space_vs_att_line.
+
+(** the four documented shapes [-1], [-1.], [-2.5], [-1e3] are such values (pins the model's lexer test) *)
+Theorem C08_negnum_documented_shapes :
+  Forall (fun v => negnum_value exn_scale v) [n_1; n_1dot; n_2_5; n_1e3] /\
+  Forall (fun m => LexProofs.number_lang m) [[49]; [49; 46]; [50; 46; 53]; [49; 101; 51]].
+Proof. exact exn_numbers. Qed.
+Print Assumptions C08_negnum_documented_shapes.
